@@ -94,7 +94,7 @@ func c12Case(kind string, p, t *ref.T) core.Verdict {
 		}
 		if combo == 0 {
 			first = v
-		} else if v != first {
+		} else if math.Abs(v-first) > 1e-12*math.Max(1, math.Abs(first)) {
 			return core.Fail("%s(%v,%v) depends on tracking: %v (untracked) vs %v (combo %d)", kind, p, t, first, v, combo)
 		}
 	}
